@@ -336,6 +336,10 @@ def run_case(ctx, case):
     try:
         if path:
             r = Bec2File.read_file(path, decoy + [mk(n) for n in decs])
+            # the same on-disk text (CRLF line ends) through a stream that does not translate line ends
+            rc = Bec2File.read_file(io.StringIO(text), decoy + [mk(n) for n in decs])
+            if rc.session_key != r.session_key or FX.view(rc.bf3file) != FX.view(r.bf3file):
+                o.viol("read|path-text-via-stream-differs", "the text written to a path reads differently through a stream")
             text = text.replace("\r\n", "\n")
         else:
             r = Bec2File.read_file(io.StringIO(text), decoy + [mk(n) for n in decs])
